@@ -327,6 +327,11 @@ func (c *Conn) readDBPage(pgno uint32) ([]byte, error) {
 type RTx struct {
 	Mods    []uint32 // existing pages (besides page 1) whose content changes
 	NewSize uint32   // database size after the transaction (0 = unchanged)
+	// Peak, if larger than both the old and the new size, is the size the image had in the middle of the
+	// transaction: pages up to Peak were appended, written to the file by the first cache spill, and the ones
+	// beyond NewSize freed again before the commit (SQLite truncates the file after the journal is finalised).
+	// Ignored without a spill.
+	Peak uint32
 	// SpillAfter lists, in increasing order, the number of journalled pages after
 	// which the cache spills (journal sync, EXCLUSIVE, dirty pages written, new journal segment).
 	SpillAfter []int
@@ -564,6 +569,11 @@ func (c *Conn) RunRTx(tx RTx, cur *oracle.Image) (res RTxResult) {
 	spill := append([]int(nil), tx.SpillAfter...)
 	journalled := 0
 	wroteDB := false
+	peak := tx.Peak
+	if peak <= newSize || peak <= origSize || len(spill) == 0 {
+		peak = 0
+	}
+	peakWritten := false
 	for _, p := range mods {
 		// Journal the original content of p.
 		orig, err := c.readDBPage(p)
@@ -620,7 +630,17 @@ func (c *Conn) RunRTx(tx RTx, cur *oracle.Image) (res RTxResult) {
 				return
 			}
 			// At spill time SQLite does not know yet that the image will shrink: every dirty page of the old image is written.
-			if err := flushDirty(origSize); c.fail(&res, "spill write", err) {
+			limit := origSize
+			if peak > 0 && !peakWritten {
+				// ... nor that pages it has appended so far will be freed again: they are dirty and are written too.
+				for p := origSize + 1; p <= peak; p++ {
+					if p != lock {
+						dirty[p] = MakePage(c.PageSize, p, c.ver(p, nil, p1v, unc || p > newSize))
+					}
+				}
+				limit, peakWritten = peak, true
+			}
+			if err := flushDirty(limit); c.fail(&res, "spill write", err) {
 				c.abandon()
 				return
 			}
@@ -691,8 +711,8 @@ func (c *Conn) RunRTx(tx RTx, cur *oracle.Image) (res RTxResult) {
 	res.Committed = true
 	res.Intended = next
 	c.Acked = true
-	// Shrink: the file is truncated after the journal is finalised.
-	if newSize < origSize {
+	// Shrink (also of a file a spill had grown beyond the final size): the file is truncated after the journal is finalised.
+	if newSize < origSize || (peakWritten && peak > newSize) {
 		c.step(fmt.Sprintf("db truncate to %d pages", newSize))
 		if err := c.db.Truncate(int64(newSize) * int64(c.PageSize)); c.fail(&res, "db truncate", err) {
 			c.unlockAll()
